@@ -34,6 +34,21 @@ CHECKS = {
     "C13": ("exploration", "event monitor: every subscriber drained after every public call and compared with the expected event list; union-of-announcements check",
             "Held on every writer history and replica session executed (honest, stale, altered proofs, refused appends, appends failed by injected storage faults), 1-3 subscribers.",
             "subscribers always drained (< 32 pending events)", "3 C13"),
+    "C05": ("exploration", "independent re-implementation (reference Merkle tree, root hash, signable, Ed25519 verify_strict, independent proof verifier) compared with raw tree/oplog bytes after every op and with every node of every honest proof",
+            "Held on every log length 1..130 (all root-set shapes), random histories, and all honest proofs of the sessions executed; relative to an independent implementation anchored on JS-certified bytes and known-answer vectors, not to the JS program.",
+            "BLAKE2b and Ed25519 primitives trusted (pinned by KATs); reference written from the scheme description", "3 C05"),
+    "C06": ("exploration", "independent layout reader decodes the four store images at every operation boundary and must reproduce the API-reported state; golden SHA-256 file hashes of the interop scenario; reverse: synthetic JS-valid layouts opened by the crate",
+            "Held on every boundary image decoded (hundreds of thousands per run) and every synthetic image opened (all four header-bit pairs, single-slot layouts, partial/stale/torn tails).",
+            "JS implementation not run; anchor = 20 golden hashes + KATs + layout description (DESIGN.md appendix A)", "3 C06"),
+    "C11": ("exploration", "encode/decode monitor against an independent compact-encoding encoder: sizes, bytes, remainders, round trip, every strict prefix; release and overflow-checked debug builds",
+            "Held on the full integer-boundary cross products per type, all byte-string lengths 0..300, all node-list lengths 0..8 and random values; hundreds of millions of prefix decodes.",
+            "independent encoder = refimpl::{enc_uint, enc_buf}", "3 C11"),
+    "C14": ("exploration", "differential execution: the same script under {instrumented, real memory, real disk} backends x {cache off, default, tiny}; results, observations and file bytes compared step by step; golden hashes on every backend; thorough: cross-build trace hashes (cache feature off, sparse off)",
+            "Held on every script/configuration pair executed; first differing step is reported with both sides.",
+            "data store compared up to trailing zero-filled holes; disk runs with per-operation sync", "3 C14"),
+    "C15": ("exploration", "deterministic scheduler (all schedules by DFS for the smallest configurations, seeded PCT/random otherwise) over a backend that suspends at every storage operation; linearizability checked against the plain Hypercore as sequential specification plus closed-form checks",
+            "Held on every schedule executed (hundreds of thousands per run); DFS exhaustive for 23 of 24 smallest configurations in quick.",
+            "cooperative preemption points only (pre-call, storage operations, lock hand-over); OS schedules only in the sanitizer lanes", "3 C15"),
 }
 
 NOT_YET = {}
@@ -61,7 +76,7 @@ def main():
             na.append({"property_id": pid, "reason": NOT_YET.get(pid, "check not built yet in this revision of /verif (work in progress; planned per DESIGN.md)")})
     m = {
         "version": 1,
-        "setup_cmd": "mkdir -p scratch evidence replays && cp /repo/Cargo.lock harness/Cargo.lock && cd harness && CARGO_NET_OFFLINE=true cargo build --release --offline",
+        "setup_cmd": "mkdir -p scratch evidence replays && cp /repo/Cargo.lock harness/Cargo.lock && cd harness && CARGO_NET_OFFLINE=true cargo build --release --offline && CARGO_NET_OFFLINE=true cargo build --offline",
         "hooks": {
             "guard": "none (no source hooks: the crate is observed through its public API and a harness-supplied RandomAccess backend via the public Storage::open)",
             "enable": "not needed; checks build /repo unmodified as a path dependency of /verif/harness",
